@@ -68,15 +68,58 @@ Entry(cb, ix, vi, hi) ==
 
 (* ---- frames that are none of the group's business ------------------------------------------ *)
 IsForeign(f) == Len(f) < 30 \/ EtherType(f) # <<136, 164>> \/ Byt(f, 16) # 0
-ForeignJudge(f, k, res, act) ==
-    [foreign |-> IsForeign(f), act |-> act, st |-> res.st,
+(* a frame that does start with the identification datagram names a group by the WHOLE 32-bit
+   address field of that datagram.  If that is not the modelled group's number it is a frame of
+   another group - one without a registered program (only the modelled group's program is ever in
+   the program array; a number >= 64 cannot have one at all).  The property then demands: it is
+   never dropped, it never runs a program, it does not circulate forever but reaches user space
+   (here: within DrainBound deliveries, each fed with what the previous one left behind) with the
+   ethertype taken from its identification datagram - and, being none of the modelled group's
+   business, it leaves that group's loop counter and map alone (otherwise a later frame of the
+   group would be passed or bounced without running the program, and the histories of
+   Dispatcher.tla would not be the histories of the real dispatcher).                            *)
+GroupNo(f) == <<f[19], f[20], f[21], f[22]>>
+IsOther(f) == ~IsForeign(f) /\ GroupNo(f) # <<Setup.g, 0, 0, 0>>
+DrainBound == 6
+RECURSIVE Drain(_, _, _)
+DrainStep(k, res, n, acc, rec) ==
+    IF rec.act = "TX" /\ n > 1
+    THEN Drain([k EXCEPT !.pkt = res.pkt,
+                         !.arr = <<[fd |-> Setup.cmap, bytes |-> res.arr[1]], [fd |-> Setup.pmap, bytes |-> res.arr[2]]>>],
+               n - 1, Append(acc, rec))
+    ELSE Append(acc, rec)
+DrainRes(k, res, n, acc) ==
+    DrainStep(k, res, n, acc,
+              [act |-> Act(res), ran |-> res.tail > 0,
+               own |-> Word4(res.arr[1], GOff) = Word4(k.arr[1].bytes, GOff) /\ res.arr[2] = k.arr[2].bytes,
+               etok |-> Len(res.pkt) >= 28 /\ EtherType(res.pkt) = Data0AsEtherType(k.pkt),
+               named |-> Len(res.pkt) >= 22 /\ GroupNo(res.pkt) = GroupNo(k.pkt)])
+Drain(k, n, acc) == DrainRes(k, R!Result(k), n, acc)
+OtherOK(steps) ==
+    /\ \A i \in 1 .. Len(steps) : steps[i].act \in {"TX", "PASS"} /\ ~steps[i].ran /\ steps[i].own /\ steps[i].named
+    /\ steps[Len(steps)].act = "PASS" /\ steps[Len(steps)].etok
+OtherWhy(steps) ==
+    IF \E i \in 1 .. Len(steps) : steps[i].act \notin {"TX", "PASS"} THEN "dropped"
+    ELSE IF \E i \in 1 .. Len(steps) : steps[i].ran THEN "ran-a-program"
+    ELSE IF \E i \in 1 .. Len(steps) : ~steps[i].own THEN "touched-the-registered-groups-state"
+    ELSE IF \E i \in 1 .. Len(steps) : ~steps[i].named THEN "group-number-rewritten"
+    ELSE IF steps[Len(steps)].act # "PASS" THEN "still-circulating"
+    ELSE IF ~steps[Len(steps)].etok THEN "ethertype-not-from-identification-datagram"
+    ELSE "ok"
+ForeignJudge(f, k, res, act, steps) ==
+    [foreign |-> IsForeign(f), other |-> IsOther(f), act |-> act, st |-> res.st,
      same |-> res.pkt = f, maps |-> res.arr[1] = k.arr[1].bytes /\ res.arr[2] = k.arr[2].bytes,
      ran |-> res.tail > 0, pkt |-> res.pkt, ctrs |-> res.arr[1], props |-> res.arr[2],
-     ctrs0 |-> k.arr[1].bytes, props0 |-> k.arr[2].bytes,
+     ctrs0 |-> k.arr[1].bytes, props0 |-> k.arr[2].bytes, steps |-> steps,
+     why |-> IF IsForeign(f) THEN (IF act = "PASS" /\ res.pkt = f /\ res.arr[1] = k.arr[1].bytes
+                                     /\ res.arr[2] = k.arr[2].bytes THEN "ok" ELSE "not-passed-unchanged")
+             ELSE IF IsOther(f) THEN OtherWhy(steps)
+             ELSE IF act \in {"PASS", "TX"} THEN "ok" ELSE "dropped",
      ok |-> IF IsForeign(f)
             THEN act = "PASS" /\ res.pkt = f /\ res.arr[1] = k.arr[1].bytes /\ res.arr[2] = k.arr[2].bytes
+            ELSE IF IsOther(f) THEN OtherOK(steps)
             ELSE act \in {"PASS", "TX"}]
-ForeignRun(f, k, res) == ForeignJudge(f, k, res, Act(res))
+ForeignRun(f, k, res) == ForeignJudge(f, k, res, Act(res), IF IsOther(f) THEN Drain(k, DrainBound, <<>>) ELSE <<>>)
 ForeignCase(f, k) == ForeignRun(f, k, R!Result(k))
 ForeignVerdict(f, cb, reg) == ForeignCase(f, CaseOf(f, cb, <<7, 0, 0>>, 165, reg, TRUE))
 
